@@ -43,6 +43,10 @@ pub enum Behaviour {
     MalformedThenTls(u8),
     /// close right after reading the request (or right after accept for ldaps)
     Close,
+    /// never answer the StartTLS request but keep listening; the client gives up on establishment
+    /// (false: its connection timeout of 400 ms elapses; true: the caller drops the connect future
+    /// after 400 ms).  Whatever is left of the connection must not speak LDAP in the clear.
+    Silent(bool),
     /// success + forged cleartext responses in the same segment, then real TLS (good cert);
     /// inside TLS the bind is answered with rc 49
     InjectSameSegment(usize),
@@ -71,6 +75,10 @@ pub struct Setup {
     /// the URL carries a DN, a query part and a recognised extension other than StartTLS (the same URL
     /// an application hands to get_url_params): none of it may influence whether TLS is used
     pub url_with_query: bool,
+    /// only with `no_verify == false`: the builder first switches verification off and later on again
+    /// (`set_no_tls_verify(true)` ... `set_no_tls_verify(false)`, as when a shared template is
+    /// adjusted); what counts is the last call
+    pub verify_toggled: bool,
 }
 
 #[derive(Debug, Default, Clone)]
@@ -200,6 +208,17 @@ async fn handle(mut s: TcpStream, setup: Setup, tap: Arc<Mutex<Tap>>) {
                 return;
             }
             Behaviour::Close => return,
+            Behaviour::Silent(_) => {
+                let t0 = std::time::Instant::now();
+                let mut tmp = [0u8; 4096];
+                while t0.elapsed() < Duration::from_millis(1500) {
+                    match tokio::time::timeout(Duration::from_millis(1500), s.read(&mut tmp)).await {
+                        Ok(Ok(0)) | Ok(Err(_)) | Err(_) => break,
+                        Ok(Ok(n)) => tap.lock().unwrap().clear.extend_from_slice(&tmp[..n]),
+                    }
+                }
+                return;
+            }
             Behaviour::InjectSameSegment(n) => {
                 let mut v = ext_ok(0);
                 v.extend_from_slice(&forged(*n));
@@ -288,10 +307,13 @@ async fn client(setup: &Setup, port: u16) -> Obs {
     const ORDERS: [[u8; 3]; 6] = [[0, 1, 2], [0, 2, 1], [1, 0, 2], [1, 2, 0], [2, 0, 1], [2, 1, 0]];
     for step in ORDERS[(setup.builder_order % 6) as usize] {
         s = match step {
-            0 => s.set_conn_timeout(Duration::from_secs(6)),
+            0 => s.set_conn_timeout(if setup.behaviour == Behaviour::Silent(false) { Duration::from_millis(400) } else { Duration::from_secs(6) }),
             1 => if setup.starttls { s.set_starttls(true) } else { s },
-            _ => if setup.no_verify { s.set_no_tls_verify(true) } else { s },
+            _ => if setup.no_verify || setup.verify_toggled { s.set_no_tls_verify(true) } else { s },
         };
+    }
+    if setup.verify_toggled {
+        s = s.set_no_tls_verify(false);
     }
     if setup.no_host_via_stream || setup.via_stream {
         match std::net::TcpStream::connect(("127.0.0.1", port)) {
@@ -302,7 +324,12 @@ async fn client(setup: &Setup, port: u16) -> Obs {
         // (a pre-opened stream does not survive clone())
         s = s.clone();
     }
-    let r = tokio::time::timeout(Duration::from_secs(12), Caught::new(LdapConnAsync::with_settings(s, &url))).await;
+    let outer = if setup.behaviour == Behaviour::Silent(true) { Duration::from_millis(400) } else { Duration::from_secs(12) };
+    let r = tokio::time::timeout(outer, Caught::new(LdapConnAsync::with_settings(s, &url))).await;
+    if let Behaviour::Silent(_) = setup.behaviour {
+        // whatever establishment left behind (a detached driver task) gets time to act
+        tokio::time::sleep(Duration::from_millis(600)).await;
+    }
     let mut o = Obs { establish: String::new(), has_tls_flag_ops: vec![], reserved_ids: vec![] };
     match r {
         Err(_) => o.establish = "Hung".into(),
@@ -353,13 +380,15 @@ fn matrix(rng: &mut Rng, reps: usize) -> Vec<Setup> {
                     Behaviour::MalformedThenTls(rng.below(5) as u8),
                     Behaviour::MalformedThenTls(rng.below(5) as u8),
                     Behaviour::Close,
+                    Behaviour::Silent(false),
+                    Behaviour::Silent(true),
                     Behaviour::InjectSameSegment(1 + rng.usize(64)),
                     Behaviour::InjectSameSegment(64),
                     Behaviour::InjectDelayed,
                 ];
                 for b in bs.drain(..) {
                     let ip_only = b == Behaviour::Tls(Cert::IpOnly);
-                    v.push(Setup { ldaps: false, starttls: true, no_verify, host_is_ip, behaviour: b, builder_order: rng.below(6) as u8, via_clone: rng.chance(1, 3), no_host_via_stream: !host_is_ip && rng.chance(1, 4), via_stream: rng.chance(1, 4), url_with_query: rng.chance(1, 4) });
+                    v.push(Setup { ldaps: false, starttls: true, no_verify, host_is_ip, behaviour: b, builder_order: rng.below(6) as u8, via_clone: rng.chance(1, 3), no_host_via_stream: !host_is_ip && rng.chance(1, 4), via_stream: rng.chance(1, 4), url_with_query: rng.chance(1, 4), verify_toggled: !no_verify && rng.chance(1, 3) });
                     if ip_only {
                         // both ways of opening the connection for the certificate that is valid for the peer's address only
                         let mut other = v.last().unwrap().clone();
@@ -372,7 +401,7 @@ fn matrix(rng: &mut Rng, reps: usize) -> Vec<Setup> {
                 for &st in &[false, true] {
                     for b in [Behaviour::Tls(Cert::Good), Behaviour::Tls(Cert::WrongName), Behaviour::Tls(Cert::Untrusted), Behaviour::Tls(Cert::SelfSigned), Behaviour::Tls(Cert::IpOnly), Behaviour::Close, Behaviour::Garbage] {
                         let ip_only = b == Behaviour::Tls(Cert::IpOnly);
-                        v.push(Setup { ldaps: true, starttls: st, no_verify, host_is_ip, behaviour: b, builder_order: rng.below(6) as u8, via_clone: rng.chance(1, 3), no_host_via_stream: !host_is_ip && rng.chance(1, 4), via_stream: rng.chance(1, 4), url_with_query: rng.chance(1, 4) });
+                        v.push(Setup { ldaps: true, starttls: st, no_verify, host_is_ip, behaviour: b, builder_order: rng.below(6) as u8, via_clone: rng.chance(1, 3), no_host_via_stream: !host_is_ip && rng.chance(1, 4), via_stream: rng.chance(1, 4), url_with_query: rng.chance(1, 4), verify_toggled: !no_verify && rng.chance(1, 3) });
                         if ip_only {
                             let mut other = v.last().unwrap().clone();
                             other.via_stream = !other.via_stream;
@@ -443,7 +472,7 @@ fn judge(setup: &Setup, obs: &Obs, tap: &Tap, rep: &mut Report) {
     };
     // ---- establishment outcome ----
     let must_fail = match &setup.behaviour {
-        Behaviour::Refuse(_) | Behaviour::RefuseThenTls(_) | Behaviour::Garbage | Behaviour::WrongResponse | Behaviour::MalformedThenTls(_) | Behaviour::Close => true,
+        Behaviour::Refuse(_) | Behaviour::RefuseThenTls(_) | Behaviour::Garbage | Behaviour::WrongResponse | Behaviour::MalformedThenTls(_) | Behaviour::Close | Behaviour::Silent(_) => true,
         Behaviour::Tls(c) => !trusted_for_host(*c) && !setup.no_verify,
         Behaviour::InjectSameSegment(_) | Behaviour::InjectDelayed => false,
     };
@@ -460,6 +489,8 @@ fn judge(setup: &Setup, obs: &Obs, tap: &Tap, rep: &mut Report) {
         Behaviour::WrongResponse => "non-extended-response".into(),
         Behaviour::MalformedThenTls(_) => "undecodable-starttls-result-but-server-handshakes".into(),
         Behaviour::Close => "server-closes".into(),
+        Behaviour::Silent(false) => "server-silent-until-the-connection-timeout".into(),
+        Behaviour::Silent(true) => "server-silent-until-the-caller-gives-up".into(),
         Behaviour::InjectSameSegment(_) => "cleartext-injected-with-the-starttls-response".into(),
         Behaviour::InjectDelayed => "cleartext-injected-before-the-handshake".into(),
     };
@@ -504,7 +535,7 @@ pub fn reserved_ids_probe() -> Vec<(String, String, Vec<Vec<i32>>)> {
     let out = rt.block_on(async {
         let mut out = vec![];
         for ldaps in [false, true] {
-            let setup = Setup { ldaps, starttls: !ldaps, no_verify: false, host_is_ip: false, behaviour: Behaviour::Tls(Cert::Good), builder_order: 0, via_clone: false, no_host_via_stream: false, via_stream: false, url_with_query: false };
+            let setup = Setup { ldaps, starttls: !ldaps, no_verify: false, host_is_ip: false, behaviour: Behaviour::Tls(Cert::Good), builder_order: 0, via_clone: false, no_host_via_stream: false, via_stream: false, url_with_query: false, verify_toggled: false };
             let mode = if ldaps { "ldaps".to_string() } else { "ldap + StartTLS".to_string() };
             let l = match TcpListener::bind("127.0.0.1:0").await {
                 Ok(l) => l,
@@ -539,7 +570,7 @@ pub fn missing_host_probe() -> Vec<(String, String)> {
     let out = rt.block_on(async {
         let mut out = vec![];
         for ldaps in [true, false] {
-            let setup = Setup { ldaps, starttls: !ldaps, no_verify: false, host_is_ip: false, behaviour: Behaviour::Tls(Cert::Good), builder_order: 0, via_clone: false, no_host_via_stream: true, via_stream: false, url_with_query: false };
+            let setup = Setup { ldaps, starttls: !ldaps, no_verify: false, host_is_ip: false, behaviour: Behaviour::Tls(Cert::Good), builder_order: 0, via_clone: false, no_host_via_stream: true, via_stream: false, url_with_query: false, verify_toggled: false };
             let l = match TcpListener::bind("127.0.0.1:0").await {
                 Ok(l) => l,
                 Err(e) => {
